@@ -63,6 +63,7 @@ def gate (j : Json) : Except String Json := do
   | "cubicSingle" => .ok (ofMat (cubicSingle k (rr 0, rr 1, gg 0)))
   | "cubicGenerator" => .ok (ofMat (cubicGenerator (gg 0) (gg 1) (gg 2)))
   | "quarticGenerator" => .ok (ofMat (quarticGenerator (gg 0) (gg 1) (gg 2)))
+  | "doubleExcitationGenerator" => .ok (ofMat doubleExcitationGenerator)
   | s => .error s!"unknown gate {s}"
 
 def occ (j : Json) : Except String Json := do
